@@ -13,6 +13,8 @@ CONFIG = dict(
              "(canonical exact decoding, injective hashes on the values that occur, strong unforgeability, owners signed only "
              "the original). The tie of (a) to the code is the translator plus a differential run of VerifySignatureValidity, "
              "VerifyPubKeySignedHash, VerifyAddressSignedHash, Signature.Sign, SignHash against the specification, including "
+             "crafted tiny-r signatures (both readings of recovery-id bit 1, and the re-encodings r+n with every recovery id, r = n, p-1, p), "
+             "a crafted genesis signature on a real follower node, "
              "signatures CONSTRUCTED with s in {1, n/2-1, n/2, n/2+1, n/2+2, 2^255-1, 2^255, 2^255+1, n-1}; the tie of (c) is "
              "the property itself evaluated on the real code: every generated mutation (all/sampled single-bit flips, "
              "append/prepend/truncate, negated s, r+-n, recid xor 1/2/+4, swapped inputs with/without signatures, edited "
